@@ -8,6 +8,7 @@ sys.path.insert(0, os.path.dirname(os.path.abspath(__file__)))
 from common import BUILD_DIR  # noqa: E402
 
 RULES = {
+    "fileops": "every scenario is one real call in its own process on copies of the corpus archives with the real StormLib: C15 = 5 entry points x destination {absent, existing, same path as source} x flag {default, false, true} (+ empty / non-empty audio batch), hashes of base, destination and an unnamed neighbour file before/after; C16 = for save / audio import / read, destination absent and pre-existing: a fault-free run records the ordered archive-library and file-system calls, then EVERY call is made to fail before and after taking effect (copies also part-way) and base hash, destination hash, temp dir and destination dir listings are checked; C17 = save (unedited and 2/40(/200) added triggers) and audio import over every corpus archive, member listing and per-member hashes, stored scenario vs encoder bytes, reload equality, and WAV duration on generated headers vs the Lean driver (wavms); distinct_nontrivial = distinct scenario specs",
     "imports": "exhaustive: every module of the package (discovered from the file system with pkgutil, 369 today) is imported as the first and only import of a fresh interpreter (16 in parallel); the four registries' key sets, whether each factory module got loaded, and the number of registrable transcoder classes are compared with the Lean driver's import1 result and with the ids of the concrete model classes enumerated in that interpreter; distinct_nontrivial = number of modules",
     "alloc": "per editor (locations, unit-property slots, WAV entries) N generated (occupancy, batch) pairs: occupancy in {empty, sparse, full, full-but-one, only-the-reserved-slot-free, reserved occupied}; batch items in {new, index-less duplicate of a stored value, already placed, carrying a free index, carrying an occupied index with other content, carrying an out-of-range index}; the real editor runs with its set-building helper wrapped so the iteration order is observed and passed to the Lean driver (op alloc); C09: allocation rules checked on the real result, plus SWNM-rebuild scenarios (named/unnamed/referenced switches, full table); C14: every case re-run under up to 24 imposed permutations of the set order, plus whole-save scenarios executed in fresh interpreters under different PYTHONHASHSEED / address padding and compared through a slot-renumbering-invariant digest computed by an independent reader; distinct_nontrivial = distinct (editor, table, batch-in-observed-order) op lines (+ distinct (scenario, hash seed) pairs)",
     "str": "regression witnesses + generated STR (w=2) and STRx (w=4) tables: 0..8 data strings (duplicates, empty strings), 0..7 ids with offsets shared / unsorted / interior / on a NUL / (non-well-formed stream: into the header, past the end, dangling), unreferenced data entries, the empty table; requests: empty, duplicates, already present, suffix/prefix of an existing string, the empty string, long strings crossing the u16 limit; every case through the real editor and the Lean driver (op addstr/tostrx), ids resolved by an independent offset reader; distinct_nontrivial = distinct op lines",
@@ -58,6 +59,11 @@ def main():
 
         out = generic(alloc_h, prop, tier, seed, replay)
         rule = RULES["alloc"]
+    elif prop in ("C15", "C16", "C17"):
+        import fileops_h
+
+        out = generic(fileops_h, prop, tier, seed, replay)
+        rule = RULES["fileops"]
     elif prop == "C18":
         import imports_h
 
